@@ -17,6 +17,9 @@ namespace A5
 /-- The exact rational value `num * 2^exp` of a generated float constant. -/
 def FConst.toRat (c : FConst) : Rat := c.num * (2 : Rat) ^ c.exp
 
+/-- `|x|` on `Rat` (core has no `abs`); equals Mathlib's `|x|`, see `A5.RealGeo.ratAbs_eq_abs`. -/
+def ratAbs (x : Rat) : Rat := if x < 0 then -x else x
+
 namespace G
 variable {α : Type}
 
